@@ -155,6 +155,7 @@ func c02(tier string) []*explore.Scenario {
 		out = append(out, m)
 	}
 	out = append(out, apiSeqs("C02", tier)...)
+	out = append(out, handlerSeqs("C02", tier)...)
 	return out
 }
 
